@@ -1231,7 +1231,7 @@ class Num:
             a = self.fresh(st, "&" + k.split(":")[-1], None, (1, MAXU[64]))
             st.env[ak] = Poly.atom(a)
             t = self.ty(x)
-            sz = t.get("sz") or (t.get("arr") * t.get("esz", 1) if t.get("arr") is not None else None) or (t.get("w") // 8 if "w" in t else None) or (8 if t.get("ptr") else None)
+            sz = t.get("sz") or (t.get("arr") * t.get("esz", 1) if t.get("arr") is not None else None) or (t.get("w") // 8 if "w" in t else None) or (t.get("flt") // 8 if t.get("flt") else None) or (8 if t.get("ptr") else None)
             if sz:
                 st.extent[a] = Poly.const(sz)
         return st.env[ak]
@@ -2654,6 +2654,37 @@ class Num:
                 return True
         return False
 
+    def first_test_true(self, header, st):
+        """the loop's test sits in its header (while / for), the header computes nothing else, and the state that arrives
+        from outside decides the test: true"""
+        fn = self.fn
+        B = fn.blocks[header]
+        if B.term not in ("while", "for") or B.cond is None or len(B.succ) != 2:
+            return False
+        body = self.loops()[header]
+        outs = [s_id for s_id, _, _ in edges(fn, header) if s_id not in body]
+        if len(outs) != 1:
+            return False
+        for e in B.elems:
+            for x in fn.walk(e):
+                if x["k"] in ("call", "asm", "decl") or (x["k"] == "bin" and x["op"] in ASSIGN) or (x["k"] == "un" and x["op"] in ("post++", "post--", "pre++", "pre--")):
+                    return False
+        s = st.copy()
+        states = [s]
+        try:
+            for e in B.elems:
+                nxt = []
+                for s_ in states:
+                    nxt.extend(self.exec_elem(e, s_))
+                states = nxt
+            if len(states) != 1:
+                return False
+            t = self.assume(B.cond, True, states[0].copy())
+            f_ = self.assume(B.cond, False, states[0].copy())
+        except Limit:
+            return False
+        return bool(t) and not f_
+
     def split_at_loop_entry(self, header, st):
         """`for (x = a; x < N; ++x)`: when the state decides neither a <= N nor a > N, analyse the two cases separately
         (in the second the body never runs), so that the bound x <= N can be kept as an invariant in the first"""
@@ -2981,17 +3012,25 @@ class Num:
             b, st, inloops = stack.pop()
             if b not in can:
                 continue
+            exit_only = False
             if b in loops and b not in inloops:
                 parts = self.split_at_loop_entry(b, st)
                 if len(parts) > 1:
                     for p_ in parts:
                         stack.append((b, p_, inloops))
                     continue
+                rotated = self.first_test_true(b, st)
                 st = self.enter_loop(b, st)
                 inloops = inloops | {b}
+                if rotated:
+                    # `while (c)` whose test is known to hold on arrival is `do .. while (c)`: the loop is never left from
+                    # the header before an iteration has run; it is left from the states that arrive back at the header
+                    st.notes["rotated"] = frozenset(st.notes.get("rotated", ())) | {b}
             elif b in loops and b in inloops:
                 self.check_back_edge(b, st)
-                continue  # back edge: covered by the havocked header state
+                if b not in st.notes.get("rotated", ()):
+                    continue  # back edge: covered by the havocked header state
+                exit_only = True
             B = fn.blocks[b]
             states = [st]
             if want_exit and b == fn.exit:
@@ -3026,6 +3065,8 @@ class Num:
             for s_id, cond, pol in es:
                 if s_id not in can:
                     continue
+                if b in loops and b in inloops and (s_id in loops[b]) == exit_only and (exit_only or b in st.notes.get("rotated", ())):
+                    continue  # rotated loop: the header state only enters the body, a back-edge state only leaves
                 # leaving a loop: drop it from the active set when the successor is outside its body
                 nl = frozenset(h for h in inloops if s_id in loops[h])
                 for s in states:
